@@ -388,6 +388,65 @@ def lmol_layout(ctx, b, label):
         ctx.compare('lmol_read_electron', norm_read(got), norm_read(m), dict(replay, variant=variant))
 
 
+def _els(pb):
+    return [[int(z), el['electron_shells']] for z, el in pb['elements'].items() if 'electron_shells' in el]
+
+
+def _ecps(pb):
+    return [[int(z), el['ecp_electrons'], el['ecp_potentials']] for z, el in pb['elements'].items() if 'ecp_potentials' in el]
+
+
+def _harm(b):
+    return 'cartesian' if 'gto_cartesian' in b['function_types'] else 'spherical'
+
+
+MORE_FORMATS = {
+    # format: (pipeline, write op, arguments of the write op from (b, normalised b), read op, what the read op returns)
+    'cp2k': (lambda manip, sort, x: sort.sort_basis(x, True),
+             'cp2k_write_all', lambda b, pb: [b['name'], _els(pb), _ecps(pb)], 'cp2k_read_electron', 'shells'),
+    'cfour': (lambda manip, sort, x: sort.sort_basis(manip.make_general(x, False, True), False),
+              'c4ecp_write', lambda b, pb: [b['name'], b['description'], _els(pb), _ecps(pb)], 'c4ecp_read', 'whole'),
+    'molpro': (lambda manip, sort, x: sort.sort_basis(manip.make_general(x, False, True), True),
+               'mpro_write_electron', lambda b, pb: [_harm(b), _els(pb)], 'mpro_read_electron', 'shells'),
+    'demon2k': (lambda manip, sort, x: sort.sort_basis(manip.uncontract_general(manip.uncontract_spdf(x, 0, True), False), False),
+                'd2k_write_all', lambda b, pb: ['gto_spherical' in b['function_types'], b['name'],
+                                                [[int(z), el.get('ecp_electrons', 0), el['electron_shells']] for z, el in pb['elements'].items() if 'electron_shells' in el],
+                                                _ecps(pb)], 'd2k_read_all', 'whole'),
+}
+
+
+def more_format(ctx, b, label, fmt):
+    """further modelled layouts (coq/Model/Cp2k*.v, Genbas*.v, Molpro.v, Demon2k*.v) against the writer / reader of the format"""
+    from basis_set_exchange import writers, readers, manip, sort
+    if ctx.model is None:
+        return
+    pipe, wop, wargs, rop, kind = MORE_FORMATS[fmt]
+    src = electron_only(b) if fmt == 'molpro' else b           # the molpro model covers the electron part
+    if not src['elements'] or (fmt in ('demon2k', ) and not any('electron_shells' in el for el in src['elements'].values())):
+        return
+    w = impl.call(writers.write_formatted_basis_str, copy.deepcopy(src), fmt)
+    pb = impl.call(lambda x: pipe(manip, sort, x), copy.deepcopy(src))
+    if w[0] != 'ok' or pb[0] != 'ok' or len(w[1]) > 200000:
+        return
+    replay = {'kind': fmt + '-layout', 'label': label, 'input': src if len(str(src)) < 15000 else None}
+    ctx.case((label, fmt + '-layout'), True, fmt + '-layout')
+    ctx.compare(wop, ('ok', w[1]), ctx.model.call(wop, *wargs(src, pb[1])), replay)
+    for variant, lines in (('as-written', w[1].splitlines()), ('damaged', damage_lines(w[1].splitlines(), random.Random(len(w[1]) + 7)))):
+        r = impl.call(readers.read_formatted_basis_str, '\n'.join(lines) + ('\n' if variant == 'damaged' or w[1].endswith('\n') else ''), fmt)
+        m = ctx.model.call(rop, lines)
+        if m[0] == 'error' and 'NotImpl' in str(m[1]):
+            ctx.dist[fmt + '-read:outside-modelled-fragment'] += 1
+            continue
+        ctx.case((label, fmt + '-read', variant), True, fmt + '-read:' + variant)
+        if kind == 'whole':
+            ctx.compare(rop, canon_whole(whole_shape(r)), canon_whole(norm_read(m)), dict(replay, variant=variant))
+        else:
+            got = r
+            if r[0] == 'ok':
+                got = ('ok', [[int(z) if str(z).isdigit() else z, el.get('electron_shells', [])] for z, el in r[1]['elements'].items()])
+            ctx.compare(rop, norm_read(got), norm_read(m), dict(replay, variant=variant))
+
+
 def norm_read(r):
     if r[0] != 'ok':
         return ('error', 'any')      # the reader's error classes (RuntimeError / KeyError / IndexError ...) are not part of the property
@@ -475,6 +534,8 @@ def work_store(ctx, item):
     for wf in WHOLE_FORMATS:
         whole_file(ctx, b, label, wf)
     lmol_layout(ctx, b, label)
+    for mf in MORE_FORMATS:
+        more_format(ctx, b, label, mf)
     if rng.random() < (1.0 if ctx.thorough() else 0.4):
         file_and_convert(ctx, b, label, rng)
     ctx.sample({'store': label, 'formats': rw_formats()})
@@ -516,6 +577,8 @@ def work_generated(ctx, seed):
     for wf in WHOLE_FORMATS:
         whole_file(ctx, b, 'gen:%d:%s' % (seed, kind), wf)
     lmol_layout(ctx, b, 'gen:%d:%s' % (seed, kind))
+    for mf in MORE_FORMATS:
+        more_format(ctx, b, 'gen:%d:%s' % (seed, kind), mf)
     if seed % 5 == 0 and kind == 'plain':
         file_and_convert(ctx, b, 'gen:%d' % seed, rng)
 
